@@ -83,4 +83,10 @@ var Map zconst.LangMap = map[zconst.ZogType]map[zconst.ZogIssueCode]string{
 		zconst.IssueCodeZHTTPInvalidForm:  "Formulario no válido",
 		zconst.IssueCodeZHTTPInvalidQuery: "Parámetros de consulta no válidos",
 	},
+	// custom schemas (z.CustomFunc)
+	"custom": {
+		zconst.IssueCodeRequired: "Es obligatorio",
+		zconst.IssueCodeNotNil:   "No debe estar vacio",
+		zconst.IssueCodeFallback: "Valor no es válido",
+	},
 }
